@@ -2,8 +2,9 @@
 
    One entry "Det:<Function>" per set-valued exported operation.  The Go invoker (harness/props/c16), in ONE process,
      (1) copies the argument slices (and the objects behind pointer arguments),
-     (2) calls the function 8 times with the same arguments, other calls of the same function (decoys: part of the arguments
-         equal, e.g. the same zooms and radius at another latitude) interleaved between the repeats,
+     (2) calls the function 9 times with the same arguments, two other calls of the same function between two repeats (decoys:
+         part of the arguments equal, e.g. the same zooms and radius at another latitude; in alternating order A, X, B, A, B', X', A:
+         a memo keyed on part of the arguments is refilled by B only when X evicted it first),
      (3) calls it on permutations of each input list (coarse-first, fine-first, two seeded shuffles) and on the list with
          entries repeated (every entry twice in place, one entry three times in place, the list appended to itself),
      (4) compares every input slice byte for byte with the copy after each call,
@@ -60,12 +61,22 @@ Definition decode (v : val) : option res :=
   end.
 
 (* ------------------------------------------------------------------------------------------------ the checker *)
-Definition same_bag (a b : list string) : bool := same_bag_S a b.
+(* Every result is normalised once (one sort), then compared with the normal form of the first repeat. *)
 Definition res_same_bag (r1 r2 : res) : bool :=
-  match r1, r2 with RErr, RErr => true | ROk _ k1, ROk _ k2 => same_bag k1 k2 | _, _ => false end.
+  match r1, r2 with RErr, RErr => true | ROk _ k1, ROk _ k2 => same_bag_S k1 k2 | _, _ => false end.
 Definition res_same_set (r1 r2 : res) : bool :=
   match r1, r2 with RErr, RErr => true | ROk f1 _, ROk f2 _ => same_set f1 f2 | _, _ => false end.
 Definition res_nodup (r : res) : bool := match r with RErr => true | ROk f _ => nodup_chk f end.
+
+(* normal forms: None = error result *)
+Definition bag_nf (r : res) : option (list string) := match r with RErr => None | ROk _ k => Some (sort_strings k) end.
+Definition set_nf (r : res) : option (list string) := match r with RErr => None | ROk f _ => Some (canon f) end.
+Definition nf_eqb (a b : option (list string)) : bool :=
+  match a, b with None, None => true | Some x, Some y => list_eqb String.eqb x y | _, _ => false end.
+Lemma bag_nf_eqb r1 r2 : nf_eqb (bag_nf r1) (bag_nf r2) = res_same_bag r1 r2.
+Proof. destruct r1, r2; reflexivity. Qed.
+Lemma set_nf_eqb r1 r2 : nf_eqb (set_nf r1) (set_nf r2) = res_same_set r1 r2.
+Proof. destruct r1, r2; reflexivity. Qed.
 
 Definition decode_all (l : list val) : option (list res) := all_opt (map decode l).
 
@@ -73,7 +84,9 @@ Definition check_runs (nodup : bool) (un : bool) (reps perms dups : list res) : 
   match reps with
   | [] => false
   | r0 :: rs =>
-      un && forallb (res_same_bag r0) rs && forallb (res_same_set r0) (perms ++ dups)
+      let b0 := bag_nf r0 in
+      let s0 := set_nf r0 in
+      un && forallb (fun r => nf_eqb b0 (bag_nf r)) rs && forallb (fun r => nf_eqb s0 (set_nf r)) (perms ++ dups)
          && (if nodup then forallb res_nodup (reps ++ perms ++ dups) else true)
   end.
 
@@ -109,10 +122,10 @@ Proof. destruct r; cbn; auto. apply nodup_chk_sound. Qed.
 
 Theorem check_runs_sound nodup un reps perms dups : check_runs nodup un reps perms dups = true -> det_spec nodup un reps perms dups.
 Proof.
-  unfold check_runs, det_spec. destruct reps as [|r0 rs]; [discriminate|]. rewrite !andb_true_iff, !forallb_forall.
+  unfold check_runs, det_spec. destruct reps as [|r0 rs]; [discriminate|]. cbv zeta. rewrite !andb_true_iff, !forallb_forall.
   intros [[[U B] S] N]. exists r0, rs. split; [reflexivity|]. split; [exact U|]. split; [|split].
-  - intros r Hr. apply res_same_bag_sound, B, Hr.
-  - intros r Hr. apply res_same_set_sound, S, Hr.
+  - intros r Hr. apply res_same_bag_sound. rewrite <- bag_nf_eqb. apply B, Hr.
+  - intros r Hr. apply res_same_set_sound. rewrite <- set_nf_eqb. apply S, Hr.
   - intros -> r Hr. rewrite forallb_forall in N. apply res_nodup_sound, N, Hr.
 Qed.
 (* the dispatch verdict on wire values *)
